@@ -46,8 +46,12 @@ InvCheck ==
   IN IF Len(R.y) # N THEN {"InverseExact"}
      ELSE Fails(\A j \in 1..N : Close(R.y[j][1], tgt[j], tol) /\ Close(R.y[j][2], Zero, tol), "InverseExact")
 
+\* relation between two recorded results (y = x element-wise, exactly): e.g. the record before / after its spectrum was read
+RelCheck == Fails(Len(R.x) = Len(R.y) /\ \A j \in 1..Len(R.x) : FEq(R.x[j], R.y[j]), R.clause)
+
 Step == /\ l >= 0 /\ l < NB /\ "BinCount" \notin bad /\ l' = l + 1 /\ UNCHANGED <<tid, W>>
-        /\ bad' = bad \cup (IF R.kind = "fas" THEN BinStep(l + 1) ELSE IF R.kind = "dom" THEN DomCheck ELSE InvCheck)
+        /\ bad' = bad \cup (IF R.kind = "fas" THEN BinStep(l + 1) ELSE IF R.kind = "dom" THEN DomCheck
+                            ELSE IF R.kind = "rel" THEN RelCheck ELSE InvCheck)
 Finish == (l = NB \/ "BinCount" \in bad) /\ l >= 0 /\ l' = -1 /\ UNCHANGED <<tid, bad, W>>
 Next == Step \/ Finish
 Spec == Init /\ [][Next]_vars
